@@ -322,6 +322,55 @@ class Scratch:
         shutil.rmtree(self.root, ignore_errors=True)
 
 
+def other_device_dir():
+    """a fresh directory on a file system other than the scratch area's (tmpfs under /dev/shm), or None"""
+    for cand in ("/dev/shm",):
+        try:
+            if os.stat(cand).st_dev != os.stat(SCRATCH_PARENT).st_dev and os.access(cand, os.W_OK):
+                return tempfile.mkdtemp(prefix="vt3x_", dir=cand)
+        except OSError:
+            pass
+    return None
+
+
+def watched_run(sc, spec, watch, full_size, kill_on_partial=False, timeout=120):
+    """one run of the real library in sc.work while an observer polls the final path `watch` (relative to sc.work): records the
+    smallest size seen there while the program was alive; with kill_on_partial the process group is killed (SIGKILL) at the
+    first moment the path exists with fewer than full_size bytes"""
+    import subprocess, signal, time
+    specp = os.path.join(sc.root, "SPEC")
+    open(specp, "w").write(spec.text(with_files=False))
+    env = dict(os.environ, VERIF_TRACE=os.path.join(sc.root, "trace"), VERIF_RDV=os.path.join(sc.root, "rdv"))
+    env.pop("SCIPIPE_VERIF_LOG", None)
+    os.makedirs(env["VERIF_RDV"], exist_ok=True)
+    full = os.path.join(sc.work, watch)
+    p = subprocess.Popen([os.path.join(vlib.BIN, "wfrun"), specp], cwd=sc.work, env=env, stdout=subprocess.PIPE, stderr=subprocess.STDOUT, start_new_session=True)
+    smallest, killed, polls = None, False, 0
+    t0 = time.time()
+    while p.poll() is None and time.time() - t0 < timeout:
+        try:
+            sz = os.stat(full).st_size
+            polls += 1
+            if smallest is None or sz < smallest:
+                smallest = sz
+            if kill_on_partial and sz < full_size:
+                os.killpg(p.pid, signal.SIGKILL)
+                killed = True
+                break
+        except OSError:
+            pass
+        time.sleep(0.0003)
+    timed_out = p.poll() is None and not killed
+    if timed_out:
+        os.killpg(p.pid, signal.SIGKILL)
+    out = p.communicate()[0].decode("latin-1")
+    try:
+        final_size = os.stat(full).st_size
+    except OSError:
+        final_size = None
+    return {"rc": p.returncode, "smallest_seen": smallest, "killed": killed, "timed_out": timed_out, "final_size": final_size, "out": out[-400:], "polls": polls}
+
+
 def run_impl(sc, spec, env=None, timeout=60, crash=None, yield_seed=None, binary="wfrun", gomaxprocs=None, kill_after=None, strace_kill=None, hooks_on=True, strace_fault=None):
     """one run of the real library in sc.work; returns observables"""
     specp = os.path.join(sc.root, "SPEC")
